@@ -4,6 +4,7 @@ go 1.24.0
 
 require (
 	github.com/bitcoin-sv/block-headers-service v0.0.0
+	github.com/centrifugal/centrifuge v0.34.3
 	github.com/centrifugal/centrifuge-go v0.10.4
 	github.com/gin-gonic/gin v1.10.0
 	github.com/jmoiron/sqlx v1.4.0
@@ -16,7 +17,6 @@ require (
 	github.com/KyleBanks/depth v1.2.1 // indirect
 	github.com/beorn7/perks v1.0.1 // indirect
 	github.com/btcsuite/go-socks v0.0.0-20170105172521-4720035b7bfd // indirect
-	github.com/centrifugal/centrifuge v0.34.3 // indirect
 	github.com/centrifugal/protocol v0.16.0 // indirect
 	github.com/cespare/xxhash/v2 v2.3.0 // indirect
 	github.com/davecgh/go-spew v1.1.2-0.20180830191138-d8f796af33cc // indirect
